@@ -38,6 +38,9 @@ type faultOracle struct {
 func (o *faultOracle) Name() string { return "fault" }
 
 func (o *faultOracle) OnWrite(s *Sim, w *Write) {
+	if !o.sc.owns(w.Key) {
+		return
+	}
 	fam := o.sc.Family
 	// C06 (c): never two live canary Deployments for one workload
 	if w.Key.GK == gkDeployment && w.Verb == "create" {
@@ -48,7 +51,7 @@ func (o *faultOracle) OnWrite(s *Sim, w *Write) {
 		}
 		for _, k := range s.Store.Keys(gkDeployment) {
 			d := s.Store.Peek(k).(*appsv1.Deployment)
-			if d.Labels[canaryDepLabel] == o.sc.Name && d.DeletionTimestamp == nil && len(d.OwnerReferences) > 0 && string(d.OwnerReferences[0].UID) == owner {
+			if d.Labels[canaryDepLabel] == o.sc.Name && d.Namespace == o.sc.NS && d.DeletionTimestamp == nil && len(d.OwnerReferences) > 0 && string(d.OwnerReferences[0].UID) == owner {
 				n++ // canary Deployments of an earlier BatchRelease that wait for the garbage collector do not count
 			}
 		}
@@ -150,6 +153,9 @@ func (o *faultOracle) OnEnd(s *Sim) {
 	}
 	for _, gk := range []GKAlias{gkRollout, gkBR} {
 		for _, k := range s.Store.Keys(gk) {
+			if !o.sc.owns(k) {
+				continue
+			}
 			obj := s.Store.Peek(k)
 			if obj.GetDeletionTimestamp() == nil {
 				continue
